@@ -82,6 +82,7 @@ def cases(draw):
             "ignore_scaling": draw(st.booleans()),
             "sharding": draw(sharding_st), "gzip": draw(st.booleans()),
             "cli": draw(st.booleans()),
+            "rerun": draw(st.integers(0, 3)) == 0,
             "seed": draw(st.integers(0, 2 ** 31)),
             "gz": draw(st.booleans())}
 
@@ -153,9 +154,39 @@ def check_case(ctx, case):
                     argv += ["--sharding=" + case["sharding"]]
                 if not case["gzip"]:
                     argv.append("--no-gzip")
-                rc = v2p.main(argv)
-                if rc not in (0, 4):
+                A_first = None
+                if case.get("rerun") and not expect_error:
+                    # the destination already holds the description of an
+                    # earlier image (same voxels, another affine)
+                    M1 = np.array(case["affine"]["matrix"], dtype=float)
+                    M1[:3, 3] += [5.0, -3.0, 2.0]
+                    M1[:3, 0] *= 2.0
+                    path1 = os.path.join(d, "first.nii")
+                    nifti.write_nifti(path1, raw, M1, slope, inter)
+                    img1, ok1 = nifti.load_checked(path1, raw, slope, inter)
+                    if ok1:
+                        rc1 = v2p.main([argv[0], path1] + argv[2:])
+                        if rc1 not in (0, 4):
+                            ctx.fail("--generate-info returned %r" % rc1)
+                        A_first = np.array(img1.affine, dtype=float)
+                try:
+                    rc = v2p.main(argv)
+                except OSError:
+                    # (the sharded accessor refuses an existing file with a
+                    # plain OSError that ends the command with a traceback:
+                    # a refusal as well)
+                    if A_first is None:
+                        raise
+                    rc = 1
+                if A_first is not None and rc not in (0, 4):
+                    # refused: the two files must still describe the earlier
+                    # image, consistently
+                    A = A_first
+                    ctx.count("rerun_refused")
+                elif rc not in (0, 4):
                     ctx.fail("--generate-info returned %r" % rc)
+                elif A_first is not None:
+                    ctx.count("rerun_accepted")
                 formatted = open(os.path.join(dest,
                                               "info_fullres.json")).read()
                 T = json.load(open(os.path.join(dest, "transform.json")))
